@@ -16,6 +16,7 @@ import (
 	"sort"
 	"strings"
 	"sync"
+	"syscall"
 	"time"
 )
 
@@ -356,12 +357,20 @@ func runWorker(e Engine, mode string, cases []*Case, from int) {
 }
 
 type tailBuf struct {
-	mu  sync.Mutex
-	buf []byte
+	mu   sync.Mutex
+	head []byte // the first bytes of the worker's stderr: a Go crash dump names its cause at the top
+	buf  []byte
 }
 
 func (t *tailBuf) Write(p []byte) (int, error) {
 	t.mu.Lock()
+	if len(t.head) < 4000 {
+		n := 4000 - len(t.head)
+		if n > len(p) {
+			n = len(p)
+		}
+		t.head = append(t.head, p[:n]...)
+	}
 	t.buf = append(t.buf, p...)
 	if len(t.buf) > 6000 {
 		t.buf = t.buf[len(t.buf)-6000:]
@@ -370,6 +379,26 @@ func (t *tailBuf) Write(p []byte) (int, error) {
 	return len(p), nil
 }
 func (t *tailBuf) String() string { t.mu.Lock(); defer t.mu.Unlock(); return string(t.buf) }
+func (t *tailBuf) Head() string   { t.mu.Lock(); defer t.mu.Unlock(); return string(t.head) }
+
+// killedFromOutside reports whether the worker process was ended by a signal somebody else sent it (an operator's pkill, a time
+// limit of the surrounding tool) rather than by the code under test: the process was terminated by an uncaught signal, or the Go
+// runtime printed the dump it prints for SIGQUIT/SIGTERM/SIGINT/SIGHUP. A crash of the implementation starts with "panic:",
+// "fatal error:" or "SIGSEGV"/"SIGBUS" ("unexpected signal") instead.
+func killedFromOutside(werr error, head string) bool {
+	if ee, ok := werr.(*exec.ExitError); ok {
+		if ws, ok := ee.Sys().(syscall.WaitStatus); ok && ws.Signaled() {
+			return true
+		}
+	}
+	h := strings.TrimSpace(head)
+	for _, sig := range []string{"SIGQUIT: quit", "SIGTERM: termination", "SIGINT: interrupt", "SIGHUP: hangup"} {
+		if strings.HasPrefix(h, sig) {
+			return true
+		}
+	}
+	return false
+}
 
 func supervise(out string, cases []*Case, caseTimeout int, record func(int, *Case, *Result, error, any)) {
 	all := filepath.Join(out, "all_cases.jsonl")
@@ -383,6 +412,7 @@ func supervise(out string, cases []*Case, caseTimeout int, record func(int, *Cas
 	}
 	f.Close()
 	next := 0
+	retried := map[int]bool{}
 	for next < len(cases) {
 		args := append([]string{}, os.Args[1:]...)
 		args = append(args, "-cases", all, "-worker", "-from", fmt.Sprint(next))
@@ -450,8 +480,15 @@ func supervise(out string, cases []*Case, caseTimeout int, record func(int, *Cas
 		if next >= len(cases) && started < 0 {
 			break
 		}
+		if started >= 0 && !hung && killedFromOutside(werr, tail.Head()) && !retried[started] {
+			// not a verdict about the implementation: run the case once more in a fresh worker
+			fmt.Fprintf(os.Stderr, "hx: worker ended by an outside signal while executing case %d (%v); retrying the case once\n", started, werr)
+			retried[started] = true
+			next = started
+			continue
+		}
 		if started >= 0 {
-			what := fmt.Sprintf("the process running the implementation died while executing this case (%v): %s", werr, lastLines(tail.String(), 12))
+			what := fmt.Sprintf("the process running the implementation died while executing this case (%v): %s", werr, lastLines(tail.Head()+"\n"+tail.String(), 12))
 			if hung {
 				what = fmt.Sprintf("no progress for %d s while executing this case (hang / deadlock / livelock); worker killed", caseTimeout)
 			}
